@@ -186,7 +186,7 @@ func (p *Prog) traceCallResult(call ssa.Value, idx int, path []int, opts TraceOp
 			}
 		}
 	}
-	if len(callees) == 0 && opts.ThroughExtern {
+	if (len(callees) == 0 || opts.NoParams && opts.ThroughOps) && opts.ThroughExtern {
 		if c.Call.IsInvoke() {
 			push(c.Call.Value, nil)
 		} else if _, isFn := c.Call.Value.(*ssa.Function); !isFn {
